@@ -203,10 +203,12 @@ def r19_2(ctx: Ctx) -> None:
     ctx.ob("R19.2", AP, func, "Area.offset", "all coordinate fields shifted", shifted == coords and len(coords) >= 4,
            "offset adds the same distance to every coordinate field of the area", form=f"fields={sorted(coords)} shifted={sorted(shifted)}")
     clone = ctx.fn(AP, "Area.clone")
-    ok = "Area(**dataclasses.asdict(self))" in txt(clone) and "self.group = id(self)" in txt(clone)
     cfg = CFG(clone)
-    ret = [r for r in walk_local(clone) if isinstance(r, ast.Return)]
-    grp = [n for n in walk_local(clone) if isinstance(n, ast.Assign) and txt(n.targets[0]) == "self.group"]
+    ret = [r for r in walk_local(clone) if isinstance(r, ast.Return) and r.value is not None]
+    grp = [n for n in walk_local(clone) if isinstance(n, ast.Assign) and txt(n.targets[0]) == "self.group" and txt(n.value) == "id(self)"]
+    copies = ("Area(**dataclasses.asdict(self))", "Area(**asdict(self))", "dataclasses.replace(self)", "replace(self)",
+              "copy.copy(self)", "type(self)(**dataclasses.asdict(self))")
+    ok = bool(ret) and all(txt(inline_reaching(cfg, r, r.value)) in copies for r in ret)
     ok = ok and bool(ret) and bool(grp) and not cfg.exists_path(cfg.n(ret[0]), cfg.n(grp[0]))
     ctx.ob("R19.2", AP, clone, "Area.clone", "clone copies all fields and shares the group", ok,
            "a split produces a full copy and both halves carry the same group identifier (set before copying)", form="")
@@ -343,12 +345,29 @@ def r19_5(ctx: Ctx) -> None:
     if not loops:
         raise AnalysisError(f"{qual}: loop over the genes not found")
     feat = loops[0].target.id
-    start_names = {txt(n.targets[0]) for n in walk_local(func) if isinstance(n, ast.Assign)
-                   and txt(n.value) in (f"{feat}.start + 1", f"1 + {feat}.start", f"{feat}.location.start + 1")}
-    end_names = {txt(n.targets[0]) for n in walk_local(func) if isinstance(n, ast.Assign)
-                 and txt(n.value) in (f"{feat}.end", f"{feat}.location.end")}
+    def unwrapped(expr: ast.AST) -> str:
+        """ text of a coordinate expression with int(...) conversions removed """
+        class NoInt(ast.NodeTransformer):
+            def visit_Call(self, call):  # noqa: N802
+                self.generic_visit(call)
+                return call.args[0] if call_name(call) == "int" and len(call.args) == 1 else call
+        from ..astutil import clone as _clone
+        return txt(NoInt().visit(_clone(expr)))
+    own = {"start": (f"{feat}.start + 1", f"1 + {feat}.start"), "end": (f"{feat}.end",)}
+    hull = {"start": (f"{feat}.location.start + 1", f"1 + {feat}.location.start"), "end": (f"{feat}.location.end",)}
+    start_names = {txt(n.targets[0]) for n in walk_local(func) if isinstance(n, ast.Assign) and unwrapped(n.value) in own["start"] + hull["start"]}
+    end_names = {txt(n.targets[0]) for n in walk_local(func) if isinstance(n, ast.Assign) and unwrapped(n.value) in own["end"] + hull["end"]}
     if len(start_names) != 1 or len(end_names) != 1:
         raise AnalysisError(f"{qual}: the drawn start / end of a gene were not found")
+    for role, names in (("start", start_names), ("end", end_names)):
+        inits = [n for n in walk_local(func) if isinstance(n, ast.Assign) and txt(n.targets[0]) in names
+                 and unwrapped(n.value) in own[role] + hull[role]]
+        for n in inits:
+            ok = unwrapped(n.value) in own[role]
+            ctx.ob("R19.5", JS, n, qual, f"drawn {role} is the gene's own {role}", ok,
+                   "a gene is drawn from its own start to its own end (for a gene that spans the origin: where it starts before "
+                   "the origin and where it ends after it), not from the smallest to the largest coordinate of its location "
+                   "(0 and the record length for such a gene)", form=txt(n.value))
     start, end = start_names.pop(), end_names.pop()
 
     def shifts(name: str):
